@@ -33,7 +33,7 @@ TOL = 1e-9
 
 Q_KINDS = ["none", "periodic", "bloch", "sym"]
 WALL_KINDS = ["pec-pmc", "pmc-pec", "pec-pec", "pmc-pmc", "none-pec", "pmc-none", "sym-pec", "sym-pmc"]
-T_KINDS = ["none", "pec-pmc", "pmc-pec", "periodic", "bloch", "sym", "sym-pec"]
+T_KINDS = ["none", "pec-pmc", "periodic", "bloch", "sym", "sym-pec"]
 
 
 def _kind_sets(tier):
@@ -76,6 +76,8 @@ def cases(tier, seed):
     conf_sets = {("none", "none", "none"), ("periodic", "bloch", "none"), ("sym", "periodic", "pec-pmc") if tier == "thorough" else ("sym", "none", "periodic"), ("bloch", "sym", "none")}
     for g in grids:
         for i, ks in enumerate(ksets):
+            if g == "rect_seed" and not all(k in Q_KINDS for k in ks):
+                continue  # the VERIF_SEED width pattern widens the alphabet on the full {none,periodic,bloch,sym}^3 product
             out.append(dict(shape=shape, kinds=ks, grid=g, raw=(i == 0 or ks == ("bloch", "periodic", "sym")), conf=(ks in conf_sets and g != "rect_seed"), seed=seed))
     return out
 
@@ -88,9 +90,9 @@ def bounds(tier, seed):
     return {
         "domain": shape,
         "boxes_per_case": nb,
-        "axis_kinds": "quick: {none,periodic,bloch,sym}^3 plus every wall pair (pec/pmc/none combinations, sym with pec/pmc far wall) on each axis with the other axes none|periodic; thorough: {none,pec-pmc,pmc-pec,periodic,bloch,sym,sym-pec}^3 plus the wall pairs with other axes none|periodic|sym",
+        "axis_kinds": "quick: {none,periodic,bloch,sym}^3 plus every wall pair (pec/pmc/none combinations, sym with pec/pmc far wall) on each axis with the other axes none|periodic; thorough: {none,pec-pmc,periodic,bloch,sym,sym-pec}^3 plus the wall pairs with other axes none|periodic|sym",
         "cases": len(cases(tier, seed)),
-        "grids": ["uniform", "rect_distinct"] + (["rect_seed"] if (tier == "thorough" or seed) else []),
+        "grids": ["uniform", "rect_distinct"] + (["rect_seed (on the {none,periodic,bloch,sym}^3 product)"] if (tier == "thorough" or seed) else []),
         "basis": "all 9N basis states of (E,H_prev,H) + 0 + 36 affinity rows (+ i*e_j rows for complex fields)",
         "exact_interpolation": "True for every box in every case; False for every box in two cases per grid (raw records do not depend on the halo)",
         "tolerance": TOL,
